@@ -56,7 +56,7 @@ def harness_failure(fr, test_regex, rc, out):
 
 
 def ops_family(name, test_regex, files, mode="exact", nontrivial=None, classify=None, rule="", env=None,
-               n_quick=None, n_thorough=None, monitor=None):
+               n_quick=None, n_thorough=None, monitor=None, dkey=None, scenario_start=None):
     """
     Generic family: the harness writes <file>.ops / <file>.impl; the driver
     produces the model's answers.  mode:
@@ -93,19 +93,31 @@ def ops_family(name, test_regex, files, mode="exact", nontrivial=None, classify=
                 fr.failures.append({"kind": "corr", "key": "driver-" + fn, "what": f"model driver exited {drc}",
                                     "replay_lines": model[-20:]})
                 continue
+            last_start = 0
+            def scenario(i):
+                if scenario_start is None:
+                    return []
+                lo = max(last_start, i - 400)
+                return ["--- scenario (op => implementation answer) ---"] + \
+                       [f"{ops[j]}  =>  {impl[j] if j < len(impl) else ''}" for j in range(lo, i + 1)]
             for i, op in enumerate(ops):
                 if not op:
                     continue
+                if scenario_start is not None and scenario_start(op):
+                    last_start = i
                 im = impl[i] if i < len(impl) else "<missing>"
                 mo = model[i] if i < len(model) else "<missing>"
                 fr.evaluations += 1
+                if im == "~":      # intermediate model action inside one implementation step: not observable
+                    counts["(intermediate)"] += 1
+                    continue
                 spec = None
                 if mode == "modelspec" and " | spec " in mo:
                     mo, spec = mo.split(" | spec ", 1)
                 cls = classify(op, im, mo) if classify else "-"
                 counts[cls] += 1
                 if nontrivial is None or nontrivial(op, im, mo):
-                    distinct.add(op)
+                    distinct.add(dkey(op, im, mo) if dkey else op)
                 if len(fr.samples) < 3 and (nontrivial is None or nontrivial(op, im, mo)):
                     fr.samples.append({"family": name, "op": op[:200], "impl": im[:200], "model": mo[:200]})
                 mkey = None
@@ -120,12 +132,12 @@ def ops_family(name, test_regex, files, mode="exact", nontrivial=None, classify=
                                                 (f", specification says `{spec[:120]}`" if spec is not None else ""),
                                         "replay_lines": [f"family {name} ({test_regex}), line {i+1} of {fn}.ops",
                                                          "op:    " + op, "impl:  " + im, "model: " + mo,
-                                                         "spec:  " + str(spec)]})
+                                                         "spec:  " + str(spec)] + scenario(i)})
                 elif im != mo:
                     fr.failures.append({"kind": "corr", "key": "corr-" + fn,
                                         "what": f"{name}: model and implementation disagree on `{op[:120]}`",
                                         "replay_lines": [f"correspondence {name} ({test_regex}), line {i+1} of {fn}.ops",
-                                                         "op:    " + op, "impl:  " + im, "model: " + mo]})
+                                                         "op:    " + op, "impl:  " + im, "model: " + mo] + scenario(i)})
         # keep the failure list short but deterministic: first of each key
         seen, short = set(), []
         for f in fr.failures:
@@ -192,7 +204,81 @@ FINDMETHOD = ops_family("findmethod", "^TestPureFindMethod$", ["findmethod"],
                         nontrivial=lambda op, im, mo: mo.startswith("found"),
                         rule="findMethod on a descriptor with duplicate unary/stream names; non-trivial = resolved names")
 
+
+# ---------------------------------------------------------------- C05 / C06: hook-stepped flow control
+
+def _flow_class(op, im, mo):
+    if op.startswith("flow.check"):
+        return "check"
+    if op.startswith("flow.init"):
+        return "init"
+    a = op.split()[-1]
+    extra = ""
+    if "spc=parked" in im:
+        extra += "+parked"
+    if "tok=1" in im:
+        extra += "+token"
+    return a + extra
+
+
+def _flow_monitor(op, im):
+    if op.startswith("flow.check"):
+        for part in im.split():
+            k, _, v = part.partition("=")
+            if k in ("blockedFull", "restored", "complete", "bounded") and v == "0":
+                return "flow-" + k
+    if "ovr=1" in im:
+        return "flow-overrun"
+    return None
+
+
+_FLOW_RULE = ("real defaultSender/defaultReceiver stepped by the harness at the verif yield points inside a synctest bubble; "
+              "one line per atomic model action, full hook-visible state compared after each; configurations: windows 1..4 (dense "
+              "interleavings), small windows with empty messages, real 64 KiB/16 KiB constants, reader budgets, cancellation; "
+              "non-trivial = distinct (action, state) lines in which the sender is parked or a wake-up token is present")
+FLOW = ops_family("flow", "^TestFlowRandom$", ["flow"], classify=_flow_class, monitor=_flow_monitor,
+                  nontrivial=lambda op, im, mo: "spc=parked" in im or "tok=1" in im,
+                  dkey=lambda op, im, mo: op + "|" + im, scenario_start=lambda op: op.startswith("flow.init"),
+                  rule=_FLOW_RULE, n_quick=400, n_thorough=12000)
+FLOWEX = ops_family("flowex", "^TestFlowExhaustive$", ["flowex"], classify=_flow_class, monitor=_flow_monitor,
+                    nontrivial=lambda op, im, mo: "spc=parked" in im or "tok=1" in im,
+                    dkey=lambda op, im, mo: op + "|" + im, scenario_start=lambda op: op.startswith("flow.init"),
+                    rule="all scheduling-choice sequences of four tiny configurations up to a depth bound (stateless replay)",
+                    env={"VERIF_DEPTH": "9", "VERIF_MAXSCHED": "3000"})
+FLOWEX_DEEP = ops_family("flowex", "^TestFlowExhaustive$", ["flowex"], classify=_flow_class, monitor=_flow_monitor,
+                         nontrivial=lambda op, im, mo: "spc=parked" in im or "tok=1" in im,
+                         dkey=lambda op, im, mo: op + "|" + im, scenario_start=lambda op: op.startswith("flow.init"),
+                         rule="all scheduling-choice sequences of four tiny configurations up to depth 13 (stateless replay)",
+                         env={"VERIF_DEPTH": "13", "VERIF_MAXSCHED": "60000"})
+
+
+def tiered(quick, thorough):
+    def fam(ctx):
+        return (thorough if ctx.thorough else quick)(ctx)
+    return fam
+
+
 PROPS = {
+    "C05": {
+        "lean_targets": ["Proofs.Props.C05"],
+        "prop_files": ["Proofs/Props/C05.lean"],
+        "families": [FLOW, tiered(FLOWEX, FLOWEX_DEEP)],
+        "side_conditions": ["Proofs.Facts.chunkMax_pos", "Proofs.Facts.window_eq"],
+        "trusted_base": ["L-atomic model TunnelModel/FlowStep.lean (one action = one atomic operation / critical section of flow_control.go)",
+                         "verif yield points in defaultSender.send / updateWindow (repo hooks, tag verif)"],
+        "assumptions": ["Go atomics, channels and sync.Cond behave sequentially consistently at the granularity of the model's actions (Go memory model)",
+                        "the carrier delivers frames of one stream in order (FIFO lists in the model)",
+                        "uint32 wrap-around of the window cannot occur for conforming peers (C05_conservation bounds the window by W < 2^32)"],
+    },
+    "C06": {
+        "lean_targets": ["Proofs.Props.C06"],
+        "prop_files": ["Proofs/Props/C06.lean"],
+        "families": [FLOW, PUMP, SENDALL],
+        "side_conditions": ["Proofs.Facts.chunkMax_eq", "Proofs.Facts.window_eq", "Proofs.Facts.chunkMax_le_window", "Proofs.Facts.advertised_windows"],
+        "trusted_base": ["L-atomic model TunnelModel/FlowStep.lean and the sequential receiver model Rcv in the same file",
+                         "Framing.pump / Framing.sendAll as models of the two senders' chunking"],
+        "assumptions": ["as C05", "heap usage is represented by queued bytes; Go allocator behaviour is outside the model"],
+    },
     "C18": {
         "lean_targets": ["Proofs.Props.C18"],
         "prop_files": ["Proofs/Props/C18.lean"],
